@@ -308,3 +308,90 @@ META = {
     'not_decided': ["np.histogram / np.histogram2d edge semantics (assumed, bounded only)", "LoadHistogram interval arithmetic (mids of from/to matrices) beyond the bounded cases"],
     'trusted_base': ['assumed contract of broadcast', 'telescoping / finite-sum meta-rule for the re-binning', 'floats = reals', 'element-wise lifting'],
 }
+
+
+def _overlap_rebin_1d(src_breaks, counts, tgt_breaks):
+    """independent oracle: counts of the target classes when every source class is spread uniformly over its length"""
+    out = []
+    for a, b in zip(tgt_breaks[:-1], tgt_breaks[1:]):
+        tot = 0.0
+        for (l, r), c in zip(zip(src_breaks[:-1], src_breaks[1:]), counts):
+            ov = min(b, r) - max(a, l)
+            if ov > 0:
+                tot += c * ov / (r - l)
+        out.append(tot)
+    return out
+
+
+@bounded('C14', 'rebin-multi-dimensional', shards=8)
+def b_rebin_nd(ctx):
+    """rebin_histogram of range x mean histograms (optionally with an additional non-interval level) to gap-free covering target binnings given as MultiIndex with the levels
+    in the histogram's order or in another order, as one IntervalIndex for all levels, or as int: every level is re-binned to the target classes of the level of the SAME
+    NAME, the total (per group) is conserved and the result equals the independent axis-by-axis overlap oracle"""
+    import itertools
+    import warnings
+    import numpy as np
+    import pandas as pd
+    from pylife.utils.histogram import rebin_histogram
+    warnings.simplefilter('error', RuntimeWarning)
+    rpool = [[0.0, 1.0, 2.0, 3.0], [0.0, 0.5, 3.0], [0.0, 3.0], [0.0, 2.0, 3.0, 7.0], [-1.0, 0.0, 4.0]]
+    mpool = [[-2.0, 0.0, 2.0], [-2.0, 2.0], [-3.0, -1.0, 1.0, 5.0], [-2.0, -1.5, 2.0]]
+    ctx.bound = "source: range classes [0,1,2,3] x mean classes [-2,0,2] with 3 count patterns, without / with an element_id level of 2 groups; targets: 5 x 4 covering binnings as MultiIndex (both level orders), int bins 1..3"
+    ctx.rule = "non-trivial: target differs from the source or levels listed in another order; distinct by (counts, group level, target, order)"
+    ctx.exhaustive = True
+    sr, sm = rpool[0], mpool[0]
+    src = pd.MultiIndex.from_product([pd.IntervalIndex.from_breaks(sr), pd.IntervalIndex.from_breaks(sm)], names=['range', 'mean'])
+    patterns = [[1, 2, 3, 4, 5, 6], [0, 5, 0, 0, 0, 1], [2.5, 0, 0, 0, 0, 2.5]]
+    for counts, grouped in itertools.product(patterns, (False, True)):
+        h = pd.Series([float(c) for c in counts], index=src, name='cycles')
+        if grouped:
+            h = pd.concat({1: h, 7: h * 2.0}, names=['element_id'])
+        for tr, tm, order in itertools.product(rpool, mpool, (('range', 'mean'), ('mean', 'range'))):
+            if not ctx.mine():
+                continue
+            if tr[0] > sr[0] or tr[-1] < sr[-1] or tm[0] > sm[0] or tm[-1] < sm[-1]:
+                continue
+            lv = {'range': pd.IntervalIndex.from_breaks(tr), 'mean': pd.IntervalIndex.from_breaks(tm)}
+            target = pd.MultiIndex.from_product([lv[order[0]], lv[order[1]]], names=list(order))
+            ctx.case((tr, tm) != (sr, sm) or order != ('range', 'mean'), key=(tuple(counts), grouped, tuple(tr), tuple(tm), order))
+            tag = ('grouped' if grouped else 'plain') + ':' + ('same-order' if order == ('range', 'mean') else 'other-order')
+            try:
+                r = rebin_histogram(h, target)
+            except Exception as e:   # noqa
+                ctx.fail(f'C14:rebin-nd:raises:{tag}', f'rebin_histogram of a {"grouped " if grouped else ""}range x mean histogram to the MultiIndex binning {order} = {tr} x {tm} raises {type(e).__name__}: {e}',
+                         {'counts': counts, 'grouped': grouped, 'range': tr, 'mean': tm, 'order': order})
+                continue
+            # oracle: axis by axis
+            grid = np.array(counts, dtype=float).reshape(len(sr) - 1, len(sm) - 1)
+            step1 = np.array([_overlap_rebin_1d(sr, grid[:, j], tr) for j in range(grid.shape[1])]).T
+            want = np.array([_overlap_rebin_1d(sm, step1[i, :], tm) for i in range(step1.shape[0])])
+            groups = [(None, 1.0)] if not grouped else [(1, 1.0), (7, 2.0)]
+            for gid, fac in groups:
+                rg = r if gid is None else r.xs(gid, level='element_id')
+                if list(rg.index.names) != ['range', 'mean']:
+                    ctx.fail(f'C14:rebin-nd:levels:{tag}', f'result levels {list(rg.index.names)}', None)
+                    break
+                got_r = sorted(set(rg.index.get_level_values('range')))
+                got_m = sorted(set(rg.index.get_level_values('mean')))
+                if got_r != list(lv['range']) or got_m != list(lv['mean']):
+                    ctx.fail(f'C14:rebin-nd:classes:{tag}', f"level 'range' carries {got_r}, level 'mean' carries {got_m}; targets {tr} / {tm} listed as {order}", {'range': tr, 'mean': tm, 'order': order})
+                    break
+                if abs(rg.sum() - fac * sum(counts)) > 1e-9 * max(1, sum(counts)):
+                    ctx.fail(f'C14:rebin-nd:total:{tag}', f'total {fac * sum(counts)} -> {rg.sum()} (targets {tr} x {tm} listed as {order})', {'range': tr, 'mean': tm, 'order': order})
+                    break
+                got = np.array([[rg.loc[(ri, mi)] for mi in lv['mean']] for ri in lv['range']], dtype=float)
+                if not np.allclose(got, fac * want, rtol=1e-9, atol=1e-12):
+                    ctx.fail(f'C14:rebin-nd:values:{tag}', f'counts differ from the axis-by-axis overlap oracle (targets {tr} x {tm} listed as {order})', {'range': tr, 'mean': tm, 'order': order})
+                    break
+        for nb in (1, 2, 3):
+            if not ctx.mine():
+                continue
+            ctx.case(True, key=(tuple(counts), grouped, nb))
+            try:
+                r = rebin_histogram(h, nb)
+            except Exception as e:   # noqa
+                ctx.fail('C14:rebin-nd:raises:int-bins', f'rebin_histogram(h, {nb}) of a {"grouped " if grouped else ""}2D histogram raises {type(e).__name__}: {e}', {'bins': nb, 'grouped': grouped})
+                continue
+            if abs(r.sum() - h.sum()) > 1e-9 * max(1, h.sum()):
+                ctx.fail('C14:rebin-nd:total:int-bins', f'total {h.sum()} -> {r.sum()} for {nb} bins', {'bins': nb, 'grouped': grouped})
+    ctx.sample({'source': 'range [0,1,2,3] x mean [-2,0,2]', 'target': "MultiIndex names ['mean', 'range'] = [-2,2] x [0,0.5,3]"})
